@@ -165,7 +165,7 @@ let trace_file path =
       match String.split_on_char ' ' line with
       | "I" :: rest ->
         let l = List.map int_of_string (List.filter (fun s -> s <> "") rest) in
-        (match l with n :: r -> let (ts, _) = parse_atoks n r in cur := ts; init := ts; Printf.printf "I %d %d %d\n" n (b2i (kinds_ok ts)) (int_of_nat (n_lines ts)) | _ -> failwith "bad I")
+        (match l with n :: r -> let (ts, _) = parse_atoks n r in cur := ts; init := ts; Printf.printf "I %d %d %d %d %d\n" n (b2i (kinds_ok ts)) (int_of_nat (n_lines ts)) (b2i (shape_ok ts)) (b2i (glue_free ts)) | _ -> failwith "bad I")
       | "R" :: tag :: digest :: rest ->
         let l = List.map int_of_string (List.filter (fun s -> s <> "") rest) in
         (match l with
@@ -182,8 +182,8 @@ let trace_file path =
            let v = judge !cur es in
            let replay = (canon v.v_after = digest) in
            cur := v.v_after;
-           Printf.printf "R %s %d %d %d %d %d %d %d %d %d %d %d %d %d %d %d %d |%s\n" tag (b2i v.v_wf) (b2i replay) (b2i v.v_c01) (b2i v.v_c01_strict) (b2i v.v_paren) (b2i v.v_lenpres)
-             (b2i v.v_c02) (b2i v.v_c02_rem) (b2i v.v_layout) (b2i v.v_case) (b2i v.v_ident) (b2i v.v_same_count) (b2i v.v_cterm) (b2i v.v_wsadj) (b2i v.v_kinds_ok) nl_before
+           Printf.printf "R %s %d %d %d %d %d %d %d %d %d %d %d %d %d %d %d %d %d %d |%s\n" tag (b2i v.v_wf) (b2i replay) (b2i v.v_c01) (b2i v.v_c01_strict) (b2i v.v_paren) (b2i v.v_lenpres)
+             (b2i v.v_c02) (b2i v.v_c02_rem) (b2i v.v_layout) (b2i v.v_case) (b2i v.v_ident) (b2i v.v_same_count) (b2i v.v_cterm) (b2i v.v_wsadj) (b2i v.v_kinds_ok) (b2i v.v_shape) (b2i v.v_glue) nl_before
              (String.concat "" (List.map (fun n -> " " ^ string_of_int (int_of_nat n)) v.v_changed))
          | _ -> failwith "bad R")
       | "S" :: isnorm :: rest ->
@@ -194,9 +194,9 @@ let trace_file path =
            let ok =
              if isnorm = "1" then coarse (normalise !cur) = coarse (List.map to_tok ts)
              else canon !cur = canon ts in
-           cur := ts; Printf.printf "S %s %d\n" isnorm (b2i ok)
+           cur := ts; Printf.printf "S %s %d %d %d\n" isnorm (b2i ok) (b2i (shape_ok ts)) (b2i (glue_free ts))
          | _ -> failwith "bad S")
-      | "E" :: digest :: _ -> Printf.printf "E %d %d %d %d %d\n" (b2i (canon !cur = digest)) (b2i (run_c01 !init !cur)) (b2i (run_c02_eq !init !cur)) (b2i (run_c02_sub !init !cur)) (int_of_nat (n_lines !cur))
+      | "E" :: digest :: _ -> Printf.printf "E %d %d %d %d %d %d %d\n" (b2i (canon !cur = digest)) (b2i (run_c01 !init !cur)) (b2i (run_c02_eq !init !cur)) (b2i (run_c02_sub !init !cur)) (int_of_nat (n_lines !cur)) (b2i (shape_ok !cur)) (b2i (glue_free !cur))
       | _ -> ()
     done
   with End_of_file -> ());
